@@ -289,9 +289,20 @@ HashVerdict(ctx, ln) ==
   ELSE IF ctx = "replay" /\ Key(ln) \notin DOMAIN seen THEN "C19:retransmission-got-different-reply"
   ELSE "ok"
 
+\* An OPEN that was in flight and the requests that waited for it complete
+\* concurrently; the driver observes the server once, when all of them are
+\* through, and logs them as a group: grp = number of events of the group
+\* that still follow, grpn = size of the group (0: no group).  Replies are
+\* judged event by event, the observation at the last event of the group
+\* (the "no effects" comparison with the previous observation is not made
+\* inside a group).
+Grp(ln)  == IF "grp" \in DOMAIN ln THEN ln.grp ELSE 0
+Grpn(ln) == IF "grpn" \in DOMAIN ln THEN ln.grpn ELSE 0
+
 Observe(st, ln) ==
-  /\ obs' = [leaf |-> ln.leaf, hook |-> ln.hook]
-  /\ nonconf' = IF Amb \/ (LeafExact(st, ln.leaf) /\ HookExact(st, ln.hook)) THEN nonconf ELSE nonconf + 1
+  IF Grp(ln) > 0 THEN UNCHANGED <<obs, nonconf>>
+  ELSE /\ obs' = [leaf |-> ln.leaf, hook |-> ln.hook]
+       /\ nonconf' = IF Amb \/ (LeafExact(st, ln.leaf) /\ HookExact(st, ln.hook)) THEN nonconf ELSE nonconf + 1
 
 Remember(ln) == seen' = IF ln.rep.h # "" THEN Put(seen, Key(ln), ln.rep.h) ELSE seen
 
@@ -350,8 +361,9 @@ TOp ==
                               THEN "C19:retransmission-of-in-flight-request-not-answered-with-its-result"
                               ELSE "NC:request-completed-while-its-open-owner-has-a-request-in-flight"
                        ELSE First(<<v1, HashVerdict(o.ctx, ln), DeniedCheck(s, req, o.ctx, Line.rep),
-                                    EffectsVerdict(s, o.s, o.ctx, v1 = "ok", Line),
-                                    LeafVerdict(o.s, Line.leaf), HookC20(o.s, Line.hook)>>)
+                                    IF Grpn(Line) > 0 THEN "ok" ELSE EffectsVerdict(s, o.s, o.ctx, v1 = "ok", Line),
+                                    IF Grp(Line) > 0 THEN "ok" ELSE LeafVerdict(o.s, Line.leaf),
+                                    IF Grp(Line) > 0 THEN "ok" ELSE HookC20(o.s, Line.hook)>>)
         /\ Observe(o.s, Line) /\ Remember(Line)
         /\ MarkAmb(o.s)
 
@@ -400,7 +412,8 @@ TIOEnd ==
                        ELSE First(<<IF ~known THEN "NC:completion-of-unknown-request"
                                     ELSE IF isopen THEN Classify(s, s.io[Line.id].req, m, "new", r)
                                     ELSE IF r # m THEN "NC:reply-differs" ELSE "ok",
-                                    LeafVerdict(s1, Line.leaf), HookC20(s1, Line.hook)>>)
+                                    IF Grp(Line) > 0 THEN "ok" ELSE LeafVerdict(s1, Line.leaf),
+                                    IF Grp(Line) > 0 THEN "ok" ELSE HookC20(s1, Line.hook)>>)
         /\ Observe(s1, Line) /\ Remember(Line)
         /\ IF isopen THEN MarkAmb(s1) ELSE UNCHANGED last
 
